@@ -3,6 +3,7 @@ import TantivyModel.Proofs.MergeSteps3
 import TantivyModel.Proofs.MergeWF
 import TantivyModel.Proofs.MergeKeys
 import TantivyModel.Proofs.MergeAssoc
+import TantivyModel.Proofs.MergeShuffled
 import TantivyModel.Proofs.MergeMulti5
 /-!
 # C04 — Merging never changes the logical content of the index
@@ -138,6 +139,36 @@ theorem C04_merged_dictionary_sorted {α} (segs : List (Segment α)) :
   exact ⟨h1.sublist hsub, fun k hk => (h2 k).1 (hsub.subset hk)⟩
 
 example : (mergeModel exSegsFwd).terms.map (·.1) = [[97], [98], [99]] := by decide
+
+/-- ANY DOC-ID MAPPING (`MappingType::Shuffled`, the merges of a sorted index, where the new→old
+table is produced by a k-way merge on the sort key). For every duplicate-free table of existing
+document addresses: the filled old→new tables invert it; new document `n` carries the
+per-document data (stored fields, norms, fast values) of the old document at `tbl[n]`; and for
+EVERY term the posting the merger writes for `n` — after remapping all sources and sorting by
+the new doc id — is the posting of that old document, tf and positions unchanged (none if it
+did not contain the term). Nothing about the order of the table is assumed, so this covers the
+stacked and the sorted branches of `IndexMerger::write` alike, document by document. -/
+theorem C04_any_mapping_docview {α} (segs : List (Segment α)) (tbl : List (Nat × Nat))
+    (hnd : tbl.Nodup)
+    (hb : ∀ a ∈ tbl, ∃ seg, segs[a.1]? = some seg ∧ a.2 < seg.alive.length)
+    (hlen : ∀ s ∈ segs, s.docs.length = s.alive.length)
+    (hpost : ∀ s ∈ segs, ∀ t ∈ s.terms, postingsOk s.alive.length t.2 = true)
+    (n s d : Nat) (seg : Segment α) (hn : tbl[n]? = some (s, d)) (hs : segs[s]? = some seg) :
+    getAddr (fillFrom (emptyTables segs) 0 tbl) s d = some n ∧
+    (shuffledDocs segs tbl)[n]? = seg.docs[d]? ∧
+    ∀ k : Key,
+      ((shuffledPostings segs tbl k).find? fun p => p.doc == n).map (fun p => (p.tf, p.pos))
+        = ((postingsOf seg.terms k).find? fun p => p.doc == d).map fun p => (p.tf, p.pos) := by
+  have hb' : ∀ a ∈ tbl, inB (emptyTables segs) a.1 a.2 :=
+    fun a ha => (inB_emptyTables segs a.1 a.2).2 (hb a ha)
+  exact ⟨(fill_inverse segs tbl hnd hb' s d n).2 hn,
+    shuffledDocs_getElem? segs tbl hlen hb n s d seg hn hs,
+    fun k => shuffled_find segs tbl hnd hb' hpost k n s d seg hn hs⟩
+
+/-- a sorted-index style mapping over `exSegsFwd`: live docs in the order (2,1), (0,0), (2,0), (0,2) -/
+example := C04_any_mapping_docview exSegsFwd [(2, 1), (0, 0), (2, 0), (0, 2)] (by decide)
+  (by decide) (by decide) (by decide) 2 2 0 _ rfl rfl
+example : (shuffledDocs exSegsFwd [(2, 1), (0, 0), (2, 0), (0, 2)]) = [5, 7, 4, 9] := by decide
 
 /-- CLOSURE UNDER RE-MERGING. The merged segment is again a well-formed merge source: per-doc
 data and alive bitset have equal length, and every posting list of its dictionary is strictly
